@@ -19,8 +19,10 @@ def universe():
     nan1, nan2, nan3 = float('nan'), float('nan'), np.float64('nan')
     d1, d2 = datetime.datetime(2000, 1, 1), datetime.datetime(2000, 1, 1, 1, 0, 0, 5)
     sc = [None, True, False, np.bool_(True), 0, 1, 2, -1, np.int64(1), np.int32(2), 1.0, 2.5, -0.5, np.float64(1.0),
-          np.float32(2.5), nan1, nan2, nan3, float('inf'), float('-inf')] + STRS[:7] + [d1, d2, datetime.datetime(1999, 12, 31, 23, 59, 59)]
-    co = [(True,), (False,), (0,), [True], [1], (True, 'a'), (1, 'a'), {'k': True}, {'k': 0}, {'k': False},
+          np.float32(2.5), nan1, nan2, nan3, np.float32('nan'), np.float16('nan'), np.float32(1.0), float('inf'), float('-inf')] + STRS[:7] + [d1, d2, datetime.datetime(1999, 12, 31, 23, 59, 59)]
+    do1 = {'a': 1, 'b': 2}; do2 = {}; do2['b'] = 1; do2['a'] = 2     # same keys, other insertion order, values crossing
+    do3 = {}; do3['k'] = 2; do3['j'] = 1
+    co = [do1, do2, do3, (np.float32('nan'), 1), (True,), (False,), (0,), [True], [1], (True, 'a'), (1, 'a'), {'k': True}, {'k': 0}, {'k': False},
           (), [], {}, dict(), list(), (1,), (1.0,), (nan1,), (nan2,), (None,), ('a',), [1], [nan1], ['a'], [None],
           (1, 2), (1, nan1), (1, None), (nan1, 1), (nan2, 1), ('a', 1), (None, None), (2, 1), (1.0, 2),
           [1, 2], [1, 'a'], [None, 'a'], ['a', 'b'],
@@ -93,7 +95,9 @@ def dsortval_obs(rows, orders):
     d = rows_table(rows, ids)
     o = {'kind': 'dsortval', 'rows': rows, 'orders': orders, 'raised': '', 'out': [], 'after': []}
     try:
-        res = d.sort(**{c: [untag(v, ids) for v in vs] for c, vs in orders})
+        def spell(vals, k):
+            return [vals, tuple(vals), dict.fromkeys(vals).keys()][k % 3] if all(isinstance(v, (int, str, float, type(None))) or True for v in vals) else vals
+        res = d.sort(**{c: spell([untag(v, ids) for v in vs], len(rows) + j) for j, (c, vs) in enumerate(orders)})
         o['out'] = proj_rows(res, ids)
     except Exception as e:
         o['raised'] = type(e).__name__
@@ -173,6 +177,10 @@ def run(ctx):
         rows = [{'a': rng.choice(sub), 'b': rng.choice(sub), 'id': ["i", k + 1]} for k in range(rng.choice([0, 1, 2, 2, 3, 4, 8, 15]))]
         by = rng.choice([['a'], ['b'], ['a', 'b'], ['b', 'a'], ['fn', 'swap'], ['fn', 'const'], ['fn', 'pair'], []])
         obs.append(dsort_obs(rows, by))
+        if i % 25 == 0:
+            nums = [["i", 1], ["i", 2], ["f", [1, 1]], ["i", 3], ["f", [5, 2]]][:rng.choice([2, 3, 5])]
+            big = [{'a': rng.choice(nums), 'b': rng.choice(nums), 'id': ["i", k + 1]} for k in range(rng.choice([65, 70, 130, 300]))]
+            obs.append(dsort_obs(big, rng.choice([['a'], ['b'], ['a', 'b']])))
         hashable = [v for v in sub]
         orders = []
         for c in rng.sample(['a', 'b'], rng.choice([1, 2])):
